@@ -14,7 +14,11 @@
      of functions of the package run on the connection, each of its assignments to the field executing or not
      (whatever its guard reads: switches, the map's length, the time), and reports the first entry write that
      meets a nil map. Theorem (Props.C18.conn_maps_total): with the assignments regenerated from the source -
-     all of kind `make` - no history does.
+     all of kind `make` - and starting from what the constructor leaves (`ctorMakes`: an unconditional `make` for
+     every field that has a writer) no history does. What the facts see: assignments `x.<field> = …` for any root
+     identifier, assignments to a struct that contains the map and `*x = T{…}` (kind `enclosing`), the address of
+     the field or of a struct containing it being taken (`addr`); NOT seen: a map replaced through a pointer that
+     was obtained in another package, reflection / unsafe.
 
   B. The block path for a block that carries the TRUSTED mark (operator's LastTrustedBlock, or data received
      through an authorised peer's encrypted channel): what `block` / `cmpctblock` / `blocktxn` of ANY peer
@@ -80,6 +84,16 @@ def runHist (A : Assigns) (W : Writes) (field : String) : Hist → Bool → Opti
     match runFn (assignsOf A fn field) (writesTo W fn field) exec cur with
     | none => none
     | some c => runHist A W field h c
+
+/-- the state a NEW connection object starts in: a map is there iff the object is created somewhere and EVERY function
+    that creates one (`ctors`: new(OneConnection) / a composite literal) assigns the field a `make` at the top level
+    of its body (`C`: (constructor, field, unconditional make?)) - a `make` under a condition (a constructor that skips
+    the counters while they are switched off) does not count -/
+def ctorMakes (C : List (String × String × Bool)) (ctors : List String) (field : String) : Bool :=
+  !ctors.isEmpty && ctors.all (fun c => C.contains (c, field, true))
+
+/-- some function stores entries into the field -/
+def written (W : Writes) (field : String) : Bool := W.any (fun w => w.2 == field)
 
 /-- the facts with one assignment's kind replaced (for the counterexample theorems) -/
 def withKind (A : Assigns) (fn field kind : String) : Assigns :=
